@@ -89,6 +89,12 @@ def run(ck, rng, tier):
         Ab = np.hstack([M, (M @ x).reshape(-1, 1)])
         lines.append("lse %s" % vf.fmt_mat(Ab.tolist(), n + 1)); meta.append(("lse", M, x, kind, cond))
         ck.count("kind %s" % kind)
+    # small-integer systems in which the elimination produces an EXACT zero on the diagonal of a row that is not the pivot row
+    # (exact cancellation, or a structural zero carried there by a row exchange)
+    for M_ in ([[2.0, 1, 1], [2, 3, 2], [2, 2, 1]], [[4.0, 3, 0], [1, 5, 7], [2, 0, 0]], [[1.0, 2, 3, 4], [1, 2, 5, 1], [2, 1, 0, 3], [3, 5, 8, 6]]):
+        M = np.array(M_); x = np.array([float(q + 1) for q in range(len(M_))])
+        Ab = np.hstack([M, (M @ x).reshape(-1, 1)])
+        lines.append("lse %s" % vf.fmt_mat(Ab.tolist(), len(M_) + 1)); meta.append(("lse", M, x, "integer_cancellation", float(np.linalg.cond(M))))
     for c in range(25 if not thorough else 250):
         n = rng.randint(2, 12)
         S = structured(rng, n, "general", 10.0)
